@@ -11,6 +11,11 @@ package props
 //     the same worker left) = Go Encode into nil (the encoder ORs bits into dst);
 //   * byte-array inputs given as a window of a larger buffer (offsets[0] > 0 / bytes after the last
 //     offset, as Page.Slice produces) encode the window only;
+//   * conformant streams the library's own encoder never emits (reference encoder c04dRef*, written
+//     from Encodings.md, independent of the library: other legal block/miniblock geometries,
+//     non-minimal bit widths, any frame of reference, arbitrary width bytes of unneeded miniblocks,
+//     arbitrary padding): Go Decode(stream) = values and Lean specDecode(stream) = values (the
+//     latter validates the reference encoder).
 // Observations (ctx.Observe: outside C04 as stated, reported in the evidence, never in the verdict):
 //   * malformed / extended streams that the library's own encoders never produce: Go decoder vs SPEC
 //     decoder; both succeed => same values; every other combination is either one of the
@@ -22,6 +27,8 @@ package props
 //   i32 <ints> | i64 <ints> | dlba <vals> | dba <vals> | flba <size> <hex>
 //   win-dlba <base> <tail> <vals> | win-dba <base> <tail> <vals>
 //   mal32 <hex> | mal64 <hex> | maldlba <hex> | maldba <hex>
+//   conf32 <stream hex> <ints> | conf64 <stream hex> <ints> | confdlba <stream hex> <vals> | confdba <stream hex> <vals>
+//     (a spec-conformant stream produced by the reference encoder below + the values it encodes)
 // (<vals>: comma separated hex strings, "e" = empty value, "-" = empty list)
 
 import (
@@ -89,6 +96,10 @@ func (c c04dCase) canon() string {
 		return fmt.Sprintf("flba %d %s", c.size, core.Hex(c.raw))
 	case "win-dlba", "win-dba":
 		return fmt.Sprintf("%s %d %d %s", c.kind, c.base, c.tail, c04dVals(c.vals))
+	case "conf32", "conf64":
+		return c.kind + " " + core.Hex(c.raw) + " " + core.JoinInts(c.ints)
+	case "confdlba", "confdba":
+		return c.kind + " " + core.Hex(c.raw) + " " + c04dVals(c.vals)
 	default:
 		return c.kind + " " + core.Hex(c.raw)
 	}
@@ -156,6 +167,28 @@ func c04dParse(line string) (c04dCase, bool) {
 		c.vals, ok = c04dParseVals(f[3])
 	case "mal32", "mal64", "maldlba", "maldba":
 		c.raw, ok = c04dParseHex(f[1])
+	case "conf32", "conf64":
+		if len(f) < 3 {
+			return c, false
+		}
+		c.raw, ok = c04dParseHex(f[1])
+		if f[2] != "-" {
+			for _, p := range strings.Split(f[2], ",") {
+				v, err := strconv.ParseInt(p, 10, 64)
+				if err != nil {
+					return c, false
+				}
+				c.ints = append(c.ints, v)
+			}
+		}
+	case "confdlba", "confdba":
+		if len(f) < 3 {
+			return c, false
+		}
+		c.raw, ok = c04dParseHex(f[1])
+		if ok {
+			c.vals, ok = c04dParseVals(f[2])
+		}
 	default:
 		return c, false
 	}
@@ -960,6 +993,200 @@ func (w *c04dWorker) runFLBA(c c04dCase) {
 	})
 }
 
+// ---------------------------------------------------------------- reference encoder (from Encodings.md)
+//
+// Independent of the library. DELTA_BINARY_PACKED: header <block size> <miniblocks per block>
+// <total count> <first value zigzag>; per block <min delta zigzag> <one width byte per miniblock>
+// <miniblocks, bit-packed LSB first>. Freedoms of the format that are exercised: any block size that
+// is a multiple of 128 with a miniblock count such that the miniblock size is a multiple of 32; any
+// frame of reference (the "min delta" need not be the minimum as long as delta - min fits the
+// width, arithmetic wraps); any width >= the needed one and <= the type's; unneeded miniblocks of
+// the last block have a width byte of any value and no body; the padding of the last needed
+// miniblock is arbitrary.
+
+var c04dGeometries = [][2]int{{128, 4}, {128, 2}, {128, 1}, {256, 4}, {256, 8}, {256, 2}, {256, 1}, {384, 4}, {384, 12},
+	{512, 4}, {512, 16}, {512, 8}, {640, 20}, {1024, 8}, {1024, 32}}
+
+type c04dBitWriter struct {
+	b []byte
+	n uint // bits written
+}
+
+func (w *c04dBitWriter) put(v uint64, width int) {
+	for i := 0; i < width; i++ {
+		if w.n%8 == 0 {
+			w.b = append(w.b, 0)
+		}
+		if v>>uint(i)&1 == 1 {
+			w.b[w.n/8] |= 1 << (w.n % 8)
+		}
+		w.n++
+	}
+}
+
+func c04dBitLen(x uint64) int {
+	n := 0
+	for x != 0 {
+		n++
+		x >>= 1
+	}
+	return n
+}
+
+func c04dRefDelta(r *rand.Rand, bits int, vals []int64, bs, minis int) []byte {
+	mask := ^uint64(0)
+	if bits == 32 {
+		mask = 0xFFFFFFFF
+	}
+	sext := func(u uint64) int64 { // the value of the low `bits` bits as a signed integer
+		if bits == 32 {
+			return int64(int32(uint32(u)))
+		}
+		return int64(u)
+	}
+	var out []byte
+	out = binary.AppendUvarint(out, uint64(bs))
+	out = binary.AppendUvarint(out, uint64(minis))
+	out = binary.AppendUvarint(out, uint64(len(vals)))
+	first := int64(0)
+	if len(vals) > 0 {
+		first = vals[0]
+	}
+	out = binary.AppendVarint(out, first)
+	vpm := bs / minis
+	style := r.Intn(4) // 0 minimal, 1 minimal widths + random extra, 2 random frame of reference, 3 mixed
+	for i := 1; i < len(vals); i += bs {
+		end := min(i+bs, len(vals))
+		deltas := make([]uint64, end-i)
+		minD := int64(math.MaxInt64)
+		for k := range deltas {
+			deltas[k] = (uint64(vals[i+k]) - uint64(vals[i+k-1])) & mask
+			minD = min(minD, sext(deltas[k]))
+		}
+		if style == 2 || (style == 3 && r.Intn(3) == 0) {
+			minD = sext(r.Uint64() >> uint(r.Intn(64)))
+			if r.Intn(2) == 0 {
+				minD = -minD
+			}
+			minD = sext(uint64(minD))
+		}
+		out = binary.AppendVarint(out, minD)
+		widths := make([]byte, minis)
+		for m := 0; m < minis; m++ {
+			lo := m * vpm
+			if lo >= len(deltas) { // unneeded miniblock: any width byte, no body
+				if r.Intn(2) == 0 {
+					widths[m] = byte(r.Intn(256))
+				}
+				continue
+			}
+			need := 0
+			for _, d := range deltas[lo:min(lo+vpm, len(deltas))] {
+				need = max(need, c04dBitLen((d-uint64(minD))&mask))
+			}
+			if style != 0 && r.Intn(2) == 0 {
+				need += r.Intn(bits - need + 1)
+			}
+			widths[m] = byte(need)
+		}
+		out = append(out, widths...)
+		for m := 0; m < minis && m*vpm < len(deltas); m++ {
+			var bw c04dBitWriter
+			wd := int(widths[m])
+			for k := m * vpm; k < (m+1)*vpm; k++ {
+				var x uint64
+				if k < len(deltas) {
+					x = (deltas[k] - uint64(minD)) & mask
+				} else if wd > 0 && style != 0 { // padding: arbitrary
+					x = r.Uint64() >> uint(64-wd)
+				}
+				bw.put(x, wd)
+			}
+			out = append(out, bw.b...)
+		}
+	}
+	return out
+}
+
+func c04dRefLens(r *rand.Rand, lens []int) []byte {
+	g := c04dGeometries[r.Intn(len(c04dGeometries))]
+	v := make([]int64, len(lens))
+	for i, l := range lens {
+		v[i] = int64(l)
+	}
+	return c04dRefDelta(r, 32, v, g[0], g[1])
+}
+
+// DELTA_LENGTH_BYTE_ARRAY: lengths (DELTA_BINARY_PACKED) then the bytes
+func c04dRefDLBA(r *rand.Rand, vs [][]byte) []byte {
+	lens := make([]int, len(vs))
+	var data []byte
+	for i, v := range vs {
+		lens[i] = len(v)
+		data = append(data, v...)
+	}
+	return append(c04dRefLens(r, lens), data...)
+}
+
+// DELTA_BYTE_ARRAY: prefix lengths (DELTA_BINARY_PACKED) then the suffixes (DELTA_LENGTH_BYTE_ARRAY);
+// the prefix is the longest common prefix with the previous value, or (still decodable) a shorter one
+func c04dRefDBA(r *rand.Rand, vs [][]byte) []byte {
+	short := r.Intn(3) == 0
+	prefs := make([]int, len(vs))
+	sufs := make([][]byte, len(vs))
+	var prev []byte
+	for i, v := range vs {
+		p := 0
+		for p < len(prev) && p < len(v) && prev[p] == v[p] {
+			p++
+		}
+		if short && p > 0 && r.Intn(2) == 0 {
+			p = r.Intn(p + 1)
+		}
+		prefs[i], sufs[i], prev = p, v[p:], v
+	}
+	return append(c04dRefLens(r, prefs), c04dRefDLBA(r, sufs)...)
+}
+
+// L1 on conformant streams of foreign origin: the Go decoders and the Lean spec decoder must both
+// return the encoded values.
+func (w *c04dWorker) runConformant(c c04dCase) {
+	ctx := w.ctx
+	canon := c.canon()
+	rawHex := core.Hex(c.raw)
+	if hdr, ok := c04dHeader(c.raw); ok {
+		ctx.Hist(c.kind+"-geometry", fmt.Sprintf("%d/%d", hdr[0], hdr[1]))
+	}
+	var op, want, goRes string
+	switch c.kind {
+	case "conf32", "conf64":
+		ctx.Case(canon, len(c.ints) >= 2)
+		ctx.Hist(c.kind+"-length", c04dLenClass(len(c.ints)))
+		op = "delta.specdec" + c.kind[4:]
+		want = "ok " + core.JoinInts(c.ints)
+		goRes = c04dGoDecode("mal"+c.kind[4:], c04dBeyond(c.raw, 0xFF))
+	default:
+		ctx.Case(canon, len(c.vals) >= 2)
+		ctx.Hist(c.kind+"-count", c04dLenClass(len(c.vals)))
+		op = c.kind[4:] + ".specdec"
+		want = "ok " + c04dVals(c.vals)
+		goRes = c04dGoDecode("mal"+c.kind[4:], c04dBeyond(c.raw, 0xFF))
+	}
+	name := map[string]string{"conf32": "delta32", "conf64": "delta64", "confdlba": "dlba", "confdba": "dba"}[c.kind]
+	if goRes != want {
+		ctx.Fail("L1", name+"-decode-conformant-foreign-geometry",
+			"the Go decoder does not return the encoded values from a spec-conformant stream written by another encoder (legal block/miniblock geometry, widths, frame of reference the library's own encoder never uses)",
+			map[string]any{"case": c04dClip(canon), "go": c04dClip(goRes)})
+	}
+	w.ask(op+" "+rawHex, func(ans string) {
+		if ans != want+" -" {
+			ctx.Fail("L1", name+"-spec-decode-conformant-foreign-geometry",
+				"the Lean spec decoder does not return the encoded values from the reference encoder's stream (reference encoder or spec decoder is wrong)",
+				map[string]any{"case": c04dClip(canon), "spec": c04dClip(ans)})
+		}
+	})
+}
+
 // ---------------------------------------------------------------- malformed streams
 
 // header fields as both decoders read them (nil if the header itself is cut)
@@ -1156,6 +1383,8 @@ func (w *c04dWorker) run(c c04dCase) {
 		if c.size > 0 && len(c.raw)%c.size == 0 {
 			w.runFLBA(c)
 		}
+	case "conf32", "conf64", "confdlba", "confdba":
+		w.runConformant(c)
 	default:
 		w.runMalformed(c)
 	}
@@ -1183,7 +1412,7 @@ func c04dCorners(ctx *core.Ctx) {
 }
 
 func RunC04Delta(ctx *core.Ctx) {
-	ctx.SetRule("delta: value sequences (int32/int64: boundary lengths 0,1,2,31..34,63..66,127..131,255..259,1000s x 12 value patterns incl. overflowing deltas; byte arrays: 9 patterns incl. empty/long/0xFF/word-boundary shared prefixes; FLBA sizes 1..33) encoded by the real encoder into nil and dirty/reused dst, decoded by Go and by the Lean spec decoder, compared byte-exact with the Lean mirror; plus malformed streams (random, free-form conformant, truncated, mutated, extended). Distinct by canonical input text; non-trivial = at least 2 values (ints), at least 2 values with a non-empty one (byte arrays), more than 4 bytes (malformed)")
+	ctx.SetRule("delta: value sequences (int32/int64: boundary lengths 0,1,2,31..34,63..66,127..131,255..259,1000s x 12 value patterns incl. overflowing deltas; byte arrays: 9 patterns incl. empty/long/0xFF/word-boundary shared prefixes; FLBA sizes 1..33) encoded by the real encoder into nil and dirty/reused dst, decoded by Go and by the Lean spec decoder, compared byte-exact with the Lean mirror; plus spec-conformant streams of a reference encoder written from Encodings.md (15 block/miniblock geometries, non-minimal widths, any frame of reference) decoded by Go and by the spec decoder; plus malformed streams (random, free-form, truncated, mutated, extended; observations only). Distinct by canonical input text; non-trivial = at least 2 values (ints), at least 2 values with a non-empty one (byte arrays), more than 4 bytes (malformed)")
 	var cases []c04dCase
 	// corpus / replay first
 	files := ctx.CorpusFiles()
@@ -1263,6 +1492,34 @@ func RunC04Delta(ctx *core.Ctx) {
 				raw = append(raw, v...)
 			}
 			cases = append(cases, c04dCase{kind: "flba", size: size, raw: raw, pat: pat, seed: r.Int63()})
+		}
+		// conformant streams of foreign origin (reference encoder)
+		nConf := ctx.Scale(2500, 20000) * mul
+		for i := 0; i < nConf; i++ {
+			g := c04dGeometries[i%len(c04dGeometries)]
+			for _, kind := range []string{"conf32", "conf64"} {
+				b := 32
+				if kind == "conf64" {
+					b = 64
+				}
+				n := c04dLen(r) % 1300
+				if r.Intn(3) == 0 { // around the block and miniblock boundaries of this geometry
+					n = max(0, []int{g[0] / g[1], g[0], 2 * g[0], g[0] + g[0]/g[1]}[r.Intn(4)]+r.Intn(5)-1)
+				}
+				pat := c04dIntPats[r.Intn(len(c04dIntPats))]
+				xs := c04dInts(r, b, n, pat)
+				cases = append(cases, c04dCase{kind: kind, ints: xs, raw: c04dRefDelta(r, b, xs, g[0], g[1]), pat: pat, seed: r.Int63()})
+			}
+			if i%3 == 0 {
+				pat := c04dBytePats[r.Intn(len(c04dBytePats))]
+				n := c04dLen(r) % 700
+				if pat == "long" {
+					n = n % 40
+				}
+				vs := c04dBytes(r, n, pat)
+				cases = append(cases, c04dCase{kind: "confdlba", vals: vs, raw: c04dRefDLBA(r, vs), pat: pat, seed: r.Int63()})
+				cases = append(cases, c04dCase{kind: "confdba", vals: vs, raw: c04dRefDBA(r, vs), pat: pat, seed: r.Int63()})
+			}
 		}
 		nWin := ctx.Scale(300, 3000) * mul
 		for i := 0; i < nWin; i++ {
